@@ -1,13 +1,23 @@
 // C03: the merge loop of do_minimize (Hopcroft's partition refinement) and the quotient automaton.
 verus! {
 
-/// the image handed to the splitter: sorted by target, holding every transition of the table
+/// what make_transitions_image may list: a transition of the table, or a transition into the dead
+/// state for a (state with a row, symbol of the pool without a cell)
+spec fn img_entry(d: DFA, t: Transition) -> bool {
+    (used(d, t.from, t.input) && d.transitions@[t.from][t.input] == t.to)
+    || (t.to == DEAD_STATE_ID && d.transitions@.contains_key(t.from) && !used(d, t.from, t.input)
+        && exists|i: int| 0 <= i < d.inputs@.len() && t.input == #[trigger] id_of(i))
+}
+
+/// the image handed to the splitter: sorted by target; it holds every transition of the table,
+/// a transition into the dead state for every (state with a row, symbol of the pool without a cell),
+/// and nothing else
 #[verifier::opaque]
 spec fn image_ok(d: DFA, im: Seq<Transition>) -> bool {
     sorted_by_to(im)
     && (forall|q: u32, a: InpId| #[trigger] used(d, q, a) ==> exists|m: int| 0 <= m < im.len() && #[trigger] tr_is(im[m], q, a, d.transitions@[q][a]))
-    && (forall|m: int| 0 <= m < im.len() ==> (used(d, (#[trigger] im[m]).from, im[m].input) && d.transitions@[im[m].from][im[m].input] == im[m].to)
-            || (im[m].to == DEAD_STATE_ID && d.transitions@.contains_key(im[m].from) && !used(d, im[m].from, im[m].input)))
+    && (forall|m: int| 0 <= m < im.len() ==> img_entry(d, #[trigger] im[m]))
+    && (forall|q: u32, i: int| d.transitions@.contains_key(q) && 0 <= i < d.inputs@.len() && !(#[trigger] used(d, q, id_of(i))) ==> im.contains(Transition { from: q, to: DEAD_STATE_ID, input: id_of(i) }))
 }
 
 /// the transition function made total: a missing cell leads to the dead state
@@ -569,13 +579,6 @@ proof fn lemma_pre_add(gt0: Map<InpId, RoaringBitmap>, gt1: Map<InpId, RoaringBi
 } // verus!
 verus! {
 
-/// what make_transitions_image may list: a transition of the table, or a transition into the dead
-/// state for a (state with a row, symbol without a cell)
-spec fn img_entry(d: DFA, t: Transition) -> bool {
-    (used(d, t.from, t.input) && d.transitions@[t.from][t.input] == t.to)
-    || (t.to == DEAD_STATE_ID && d.transitions@.contains_key(t.from) && !used(d, t.from, t.input))
-}
-
 spec fn img_all(d: DFA, ts: Seq<Transition>) -> bool { forall|m: int| 0 <= m < ts.len() ==> img_entry(d, #[trigger] ts[m]) }
 
 /// every transition leaving q is in the list
@@ -587,9 +590,21 @@ spec fn img_rows(d: DFA, ts: Seq<Transition>, rowk: Seq<u32>, n: int) -> bool {
     forall|i: int| 0 <= i < n && i < rowk.len() ==> row_listed(d, ts, #[trigger] rowk[i])
 }
 
+/// the dead-state fillers of state q for the first n symbols of the pool are in the list
+spec fn fill_listed(d: DFA, ts: Seq<Transition>, q: u32, n: int) -> bool {
+    forall|i: int| 0 <= i < n && i < d.inputs@.len() && !used(d, q, #[trigger] id_of(i)) ==> ts.contains(Transition { from: q, to: DEAD_STATE_ID, input: id_of(i) })
+}
+
+spec fn img_fill(d: DFA, ts: Seq<Transition>, rowk: Seq<u32>, n: int) -> bool {
+    forall|r: int| 0 <= r < n && r < rowk.len() ==> fill_listed(d, ts, #[trigger] rowk[r], d.inputs@.len() as int)
+}
+
 proof fn lemma_img_push(d: DFA, ts: Seq<Transition>, t: Transition, rowk: Seq<u32>, n: int)
-    requires img_all(d, ts), img_rows(d, ts, rowk, n), img_entry(d, t)
-    ensures img_all(d, ts.push(t)), img_rows(d, ts.push(t), rowk, n), forall|x: Transition| ts.contains(x) ==> ts.push(t).contains(x), ts.push(t).contains(t)
+    requires img_all(d, ts), img_rows(d, ts, rowk, n), img_fill(d, ts, rowk, n), img_entry(d, t)
+    ensures
+        img_all(d, ts.push(t)), img_rows(d, ts.push(t), rowk, n), img_fill(d, ts.push(t), rowk, n),
+        forall|x: Transition| ts.contains(x) ==> ts.push(t).contains(x), ts.push(t).contains(t),
+        forall|q: u32, k: int| fill_listed(d, ts, q, k) ==> #[trigger] fill_listed(d, ts.push(t), q, k),
 {
     let t2 = ts.push(t);
     assert forall|x: Transition| ts.contains(x) implies t2.contains(x) by {
@@ -603,12 +618,15 @@ proof fn lemma_img_push(d: DFA, ts: Seq<Transition>, t: Transition, rowk: Seq<u3
     assert forall|i: int| 0 <= i < n && i < rowk.len() implies row_listed(d, t2, #[trigger] rowk[i]) by {
         assert(row_listed(d, ts, rowk[i]));
     }
+    assert forall|r: int| 0 <= r < n && r < rowk.len() implies fill_listed(d, t2, #[trigger] rowk[r], d.inputs@.len() as int) by {
+        assert(fill_listed(d, ts, rowk[r], d.inputs@.len() as int));
+    }
 }
 
 /// the list, sorted and without repetitions, is the image the splitter needs
 proof fn lemma_image(d: DFA, ts: Seq<Transition>, out: Seq<Transition>, rowk: Seq<u32>)
     requires
-        img_all(d, ts), img_rows(d, ts, rowk, rowk.len() as int),
+        img_all(d, ts), img_rows(d, ts, rowk, rowk.len() as int), img_fill(d, ts, rowk, rowk.len() as int),
         forall|q: u32| d.transitions@.contains_key(q) ==> exists|i: int| 0 <= i < rowk.len() && #[trigger] rowk[i] == q,
         sorted_by_to(out),
         forall|t: Transition| out.contains(t) <==> ts.contains(t),
@@ -624,12 +642,16 @@ proof fn lemma_image(d: DFA, ts: Seq<Transition>, out: Seq<Transition>, rowk: Se
         let m = choose|m: int| 0 <= m < out.len() && out[m] == t;
         assert(tr_is(out[m], q, a, d.transitions@[q][a]));
     }
-    assert forall|m: int| 0 <= m < out.len() implies (used(d, (#[trigger] out[m]).from, out[m].input) && d.transitions@[out[m].from][out[m].input] == out[m].to)
-            || (out[m].to == DEAD_STATE_ID && d.transitions@.contains_key(out[m].from) && !used(d, out[m].from, out[m].input)) by {
+    assert forall|m: int| 0 <= m < out.len() implies img_entry(d, #[trigger] out[m]) by {
         assert(out.contains(out[m]));
         assert(ts.contains(out[m]));
         let k = choose|k: int| 0 <= k < ts.len() && ts[k] == out[m];
         assert(img_entry(d, ts[k]));
+    }
+    assert forall|q: u32, i: int| d.transitions@.contains_key(q) && 0 <= i < d.inputs@.len() && !(#[trigger] used(d, q, id_of(i))) implies out.contains(Transition { from: q, to: DEAD_STATE_ID, input: id_of(i) }) by {
+        let r = choose|r: int| 0 <= r < rowk.len() && #[trigger] rowk[r] == q;
+        assert(fill_listed(d, ts, rowk[r], d.inputs@.len() as int));
+        assert(ts.contains(Transition { from: q, to: DEAD_STATE_ID, input: id_of(i) }));
     }
 }
 
